@@ -218,6 +218,7 @@ def run(tier, seed):
                 chk.count('law:split:skipped-inexact')
                 continue
             laws += ['=SUM(%s,%s)' % (tx, ty), '=SUM(%s)+SUM(%s)' % (tx, ty), '=COUNT(%s,%s)' % (tx, ty), '=COUNT(%s)+COUNT(%s)' % (tx, ty)]
+        twin_sheets_law(chk, rng, b)
         lo = realcode.eval_formulas(laws, values, extra_sheets=[(book.title1, book.data[1])], min_rows=per)
         for i in range(0, len(laws), 2):
             chk.count('law:split')
@@ -256,6 +257,36 @@ def helpers(chk, tier):
 
 def conv(inst, v):
     return inst.EmptyCell() if v is None else v
+
+
+def twin_sheets_law(chk, rng, b):
+    """the same unqualified area texts in formulas of two sheets: each formula aggregates the cells of its OWN sheet"""
+    m = realcode.mods()
+    h = rng.randint(3, 6)
+    data = [[[rng.choice([1, 2, 3, 5, 8, 13, 0.5, -4, 'x', None]) for _ in range(3)] for _ in range(h)] for _ in (0, 1)]
+    texts = ['=SUM(A1:A%d)' % h, '=SUM(A1:C%d)' % h, '=COUNT(A1:B%d)' % h, '=MAX(B1:C%d)' % h, '=MIN(A1:A%d,7)' % h, '=AVERAGE(A1:C%d,1)' % h, '=SUM(B:B)', '=COUNTBLANK(A1:C%d)' % h]
+    sheets = []
+    for s in (0, 1):
+        rows = [list(r) + [None, None] for r in data[s]] + [[None] * 5 for _ in range(max(0, len(texts) - h))]
+        for i, t in enumerate(texts):
+            rows[i][4] = t
+        sheets.append((['First', 'Second'][s], rows))
+    try:
+        ex = realcode.executor_for(realcode.load_class(realcode.translate(sheets)))
+    except Exception as e:  # noqa
+        chk.violation({'why': 'two sheets with the same formula texts do not translate', 'impl': 'E' + core.exc_class(e), 'stream': 'twin-sheets'})
+        return
+    got = [[core.outcome(lambda s=s, i=i: ex.get_cell(m['Cell'](s, 4, i)).value) for i in range(len(texts))] for s in (0, 1)]
+    # reference: each sheet alone in a workbook of its own
+    for s in (0, 1):
+        alone = realcode.executor_for(realcode.load_class(realcode.translate([sheets[s]])))
+        for i, t in enumerate(texts):
+            want = core.outcome(lambda i=i: alone.get_cell(m['Cell'](0, 4, i)).value)
+            chk.count('law:twin-sheets')
+            chk.seen(('twin', b, s, t))
+            if got[s][i] != want:
+                chk.violation({'why': 'an aggregate over an unqualified area gives another value when a second sheet holds a formula with the same text', 'formula': t,
+                               'on_sheet': sheets[s][0], 'impl': got[s][i], 'alone': want, 'stream': 'twin-sheets'})
 
 
 def replay(path):
